@@ -203,6 +203,17 @@ func (c *Ctx) Report(v *Violation) {
 	c.viols = append(c.viols, v)
 }
 
+// enoughAlready: the verdict is "violated" already and the run has been going for a long time (a
+// change that makes parses hang costs a watchdog period per case): the remaining chunks are not
+// run. It never turns a verdict around - it only applies once violations exist.
+func (c *Ctx) enoughAlready() bool {
+	if c.NViol() == 0 || time.Since(c.Start) < 12*time.Minute {
+		return false
+	}
+	c.Cov("stopped_early_after_violations_min", int(time.Since(c.Start).Minutes()))
+	return true
+}
+
 // NViol returns the number of violation classes so far.
 func (c *Ctx) NViol() int {
 	c.mu.Lock()
